@@ -385,14 +385,22 @@ type phiLeaf struct {
 }
 
 func phiLeavesWithPred(v ssa.Value) []phiLeaf {
+	return phiLeavesWithPred1(v, map[*ssa.Phi]bool{})
+}
+
+func phiLeavesWithPred1(v ssa.Value, seen map[*ssa.Phi]bool) []phiLeaf {
 	phi, ok := v.(*ssa.Phi)
 	if !ok {
 		return []phiLeaf{{val: v}}
 	}
+	if seen[phi] {
+		return nil
+	}
+	seen[phi] = true
 	var out []phiLeaf
 	for k, e := range phi.Edges {
 		if _, nested := e.(*ssa.Phi); nested {
-			out = append(out, phiLeavesWithPred(e)...)
+			out = append(out, phiLeavesWithPred1(e, seen)...)
 			continue
 		}
 		out = append(out, phiLeaf{e, phi, phi.Block().Preds[k]})
